@@ -135,11 +135,19 @@ def is_inf(case):
 def gen(rng, tier):
     n = 70 if tier == "quick" else 1200
     cases = gen_inf(random_child(rng), tier, 45 if tier == "quick" else 800)
-    for _ in range(n):
+    n_deep = 14 if tier == "quick" else 200
+    for i in range(n + n_deep):
         dsl = D.gen_dsl(rng)
         max_depth = rng.choice([1, 2, 2, 3, 3, 3, 4])
         min_var = rng.choice([0, 1, 1, 1, 2])
         n_gram = rng.choice([1, 2, 2, 2, 3])
+        if i >= n:
+            # long contexts: forbidden patterns must be looked up with the direct parent at every nesting level
+            for _ in range(30):
+                if dsl["forbidden"]:
+                    break
+                dsl = D.gen_dsl(rng)
+            max_depth, n_gram, min_var = 4, 3, rng.choice([0, 1])
         _, ret = D.arrow_parts(dsl["request"])
         cap = 120 if tier == "quick" else 200
         cands = D.terms(dsl, ret, max_depth + 1, rng, cap)
